@@ -33,6 +33,10 @@ structure Cheat where
   /-- the predicate's attribute is REVEALED by the sub-proof: add a dummy entry `(attr, mj)` to
       `eq_proof.m` so that the link check compares the predicate response with itself -/
   injectM : Bool := false
+  /-- prove with `attr` hidden, then CLAIM a revealed value for it: `revealed_attrs[attr] := fake`,
+      `m[attr] := m̂ − c·fake` (recombines if the verifier takes the hidden exponents from the keys of
+      `eq_proof.m` instead of from its own request) -/
+  fakeReveal : Option (String × Int) := none
 
 def forgeCore (inp : Json) (sigOf : Int → PubKey Int → Values → Except String (Signature Int))
     (cheat : Option Cheat) : Except String Json := do
@@ -92,6 +96,14 @@ def forgeCore (inp : Json) (sigOf : Int → PubKey Int → Values → Except Str
           | some (a, d) => { eq0 with revealed := eq0.revealed ++ [(a, d)] }
           | none => eq0
         | none => eq0
+      let eq2 : EqProof Int := match cheat with
+        | some ch => match ch.fakeReveal with
+          | some (a, fake) =>
+            { eq1 with revealed := eq1.revealed ++ [(a, fake)],
+                       m := eq1.m.map fun (k, v) => if k == a then (k, v - c * fake) else (k, v) }
+          | none => eq1
+        | none => eq1
+      let eq1 := eq2
       let eq : EqProof Int := match cheat with
         | some ch =>
           if ch.injectM then
@@ -121,7 +133,7 @@ def forgeCore (inp : Json) (sigOf : Int → PubKey Int → Values → Except Str
       -- the model verifier's verdict on the document
       let vin := Json.mkObj [("mode", ← inp.getObjVal? "mode"), ("backend", ← inp.getObjVal? "backend"),
         ("common", toJson (keys common)), ("proof", proof), ("nonce", Json.str (toString nonce)),
-        ("creds", Json.arr #[Json.mkObj [("pk", pkJ), ("req", reqJ), ("schema", toJson schema), ("non_schema", toJson nonSchema),
+        ("creds", Json.arr #[Json.mkObj [("pk", pkJ), ("req", (optField inp "verifier_req").getD reqJ), ("schema", toJson schema), ("non_schema", toJson nonSchema),
                                          ("has_rkey", false), ("has_registry", false), ("has_regkey", false)]])]
       let mv ← verifyOp noNrHook vin
       return Json.mkObj [("status", "ok"), ("proof", proof), ("model_verdict", mv),
@@ -193,6 +205,11 @@ def forgeOp (inp : Json) : Except String Json := do
     let sig : Signature Int := { m2 := ← getDec sj "m_2", a := ← getDec sj "a", e := ← getDec sj "e", v := ← getDec sj "v" }
     let ch : Cheat := { predIndex := (← getInt cj "pred_index").toNat, value := ← getInt cj "value", mTilde := ← getDec cj "m_tilde", injectM := true }
     forgeCore inp (fun _ _ _ => .ok sig) (some ch)
+  | "fake_revealed" =>
+    let sj ← inp.getObjVal? "sig"
+    let sig : Signature Int := { m2 := ← getDec sj "m_2", a := ← getDec sj "a", e := ← getDec sj "e", v := ← getDec sj "v" }
+    forgeCore inp (fun _ _ _ => .ok sig)
+      (some { predIndex := 1000000, value := 0, mTilde := 0, fakeReveal := some (← getStr cj "attr", ← getDec cj "fake") })
   | "split_hidden" =>
     let sj ← inp.getObjVal? "sig"
     let sig : Signature Int := { m2 := ← getDec sj "m_2", a := ← getDec sj "a", e := ← getDec sj "e", v := ← getDec sj "v" }
